@@ -261,6 +261,11 @@ Example C18_nonvacuous :
   (let k := after (boot true) [OCreate 2; OCreate 1; ODestroy 1 false; OKillIds [2; 0; 9001]] in
    map rt_id (w_roster k) = [0; 1] /\ map rt_env (w_roster k) = [Some 0; Some 0] /\
    kills_of (snd (hstep k OReconnect)) = []) /\
+  (* a teardown whose KILL calls hang and fail while another environment is deployed: the new task
+     is in the roster and locked when the failed tasks are put back, the reconnection kills nothing *)
+  (let h := after (boot true) [OCreate 2; OKillHeld 0; OCreate 1; OKillRefused [0; 1]] in
+   map rt_id (w_roster h) = [2; 0; 1] /\ map rt_env (w_roster h) = [Some 1; None; None] /\
+   kills_of (snd (hstep h OReconnect)) = []) /\
   (* a restart whose reconciliation is lost: two SUBSCRIBEs, two RECONCILEs, the leftovers killed by
      the second; with the answers lost and NO further subscription they would survive *)
   (let v := after (boot true) [OCreate 2] in
